@@ -14,8 +14,9 @@ P = {
   text="PARTIAL proof + end-to-end decision. Proved for every number and kind of planted copies (Pipeline.v, Select.v): under the ideal-evidence "
        "hypotheses (supporting observations = depth x planted member copies per constraint row, locus depth = depth x structure copies) every row "
        "sees exactly the planted copies, the planted combination has fit error 0 and no combination scores lower, normalised region depths equal "
-       "the planted copy numbers, and a best-scoring candidate chain is reported by genotype()'s selection. NOT proved: that real alignments give "
-       "the ideal pileup through the foreign indel realigner, and that the minor objective (phase term) is 0 on planted reads; those are decided by "
+       "the planted copy numbers, and a best-scoring candidate chain is reported by genotype()'s selection; for SUBSTITUTION and REFERENCE rows the "
+       "ideal-evidence hypotheses are themselves proved from the pileup model of C06 for error-free reads at uniform depth (Simulated.v). NOT "
+       "proved: that insertion/deletion rows are ideal (foreign indel realigner), and that the minor objective (phase term) is 0 on planted reads; those are decided by "
        "simulation: error-free reads are simulated from planted allele combinations over generated two-strand databases (with/without pseudogene, "
        "SNP/MNP/ins/del, extra copies, deletion, fusion) and shipped genes, genotyped through the real pipeline (BAM -> genotype()), and the two "
        "clauses (planted majors among best; variants with multiplicity exact) are evaluated on the result.",
@@ -62,7 +63,7 @@ P = {
        "exhausted); the reference solver Brute is sound, optimal, and satisfies the contract. " + TIE + "The real lpinterface (CBC via OR-Tools) "
        "is run on generated models (binaries, error terms, helpers, near ties at the precision thresholds) and on every LP recorded from the three "
        "stages, and compared with Brute/Enum evaluated in Coq, exhaustive evaluation, and independent solvers (SCIP, HiGHS).",
-  note=TRUST + "CBC/SCIP/HiGHS (OR-Tools 9.15) are oracles: the contract hypothesis C05_contract is validated, not proved, for them. Exact rationals in the model, 1e-6 tolerance on the float side away from thresholds.",
+  note=TRUST + "CBC/SCIP/HiGHS (OR-Tools 9.15) are oracles: the contract hypothesis C05_contract is validated, not proved, for them, and is KNOWN TO FAIL for CBC on two families (open findings: 1e-5 cutoff resolution; non-optimal 'optimal' answers after exclusion cuts on CYP2D6 copy-number models). Exact rationals in the model, 1e-6 tolerance on the float side away from thresholds.",
   tech="Coq proof over executable Gallina model (enumeration loop, helpers, reference solver) + differential correspondence against CBC, brute force and independent solvers"),
  "C06": dict(
   text="Theorems over Pileup.v (CIGAR walk of _parse_read, eligibility filter, MNP merge, quality binning, _make_coverage folding) for every read "
@@ -116,7 +117,9 @@ P = {
   text="PARTIAL proof + two-build differential. Proved over Transport.v: for the abstract stage (fit of catalogue variants + reference evidence per "
        "site, per-site admissibility) results commute with any injective SITE-PRESERVING transport of variants; same-strand builds always are; "
        "opposite strands are not when two non-insertion variants of different footprint start at one RefSeq base (witness; hypothesis cannot be "
-       "dropped). NOT proved: that the three ILP stages are instances of the abstract stage. Decided by running the real stages on the same "
+       "dropped); and the ACTUAL major-stage specification of C02 (MajorSpec.score, admissible, enum_all) commutes with every such transport "
+       "(C13_major_*: same scores, same admissibility, one-to-one enumeration). NOT proved: the same for the candidate filter, the copy-number "
+       "and the minor stage. Decided by running the real stages on the same "
        "evidence transported through the RefSeq maps between hg19/hg38 (shipped genes) and between opposite strands (generated databases), and on "
        "simulated alignments against each build; structures, majors, minors, scores and RefSeq-expressed added/lost variants are compared.",
   note=TRUST + "pysam, simulator, CBC, indelpost. Open findings (opposite-strand same-site sub+del, phase term, indel support anchor, realigner, exact ties) in known_findings.json.",
